@@ -858,4 +858,155 @@ example : whereRows [true, false, true] [[1], [], [2, 3]] [[7], [], [8, 9]] = [[
 example : (translateRows stdTable [[65, 84, 71, 116, 97, 97], []]).toOption = some [[77, 42], []] := by decide +kernel
 example : specTranslate [65, 84, 71, 116, 97, 97] = some [77, 42] := by decide +kernel
 
+/-! ### tables of sequences: a derived table carries ITS OWN sequence column -/
+
+theorem lookup_filter_ne (l : List (String × List Bytes)) (k k' : String) (h : k' ≠ k) :
+    (l.filter (fun p => p.1 != k)).lookup k' = l.lookup k' := by
+  induction l with
+  | nil => rfl
+  | cons p ps ih =>
+    by_cases hp : p.1 = k
+    · have hk : (k' == p.1) = false := by
+        simp only [beq_eq_false_iff_ne, ne_eq]; intro e; exact h (e.trans hp)
+      simp only [List.filter_cons, hp, bne_self_eq_false, Bool.false_eq_true, if_false]
+      rw [ih]
+      obtain ⟨a, b⟩ := p
+      simp only at hk
+      simp [List.lookup, hk]
+    · have : (p.1 != k) = true := by simp [hp]
+      simp only [List.filter_cons, this, if_true]
+      obtain ⟨a, b⟩ := p
+      simp only [List.lookup]
+      split <;> simp_all
+
+/-- reading a column that was just replaced gives the NEW value, whatever was replaced before -/
+theorem table_get_replace (t : Table) (k : String) (v : List Bytes) : (t.replace k v).get k = some v := by
+  simp [Table.get, Table.replace]
+
+/-- … and every other column is untouched -/
+theorem table_get_replace_ne (t : Table) (k k' : String) (v : List Bytes) (h : k' ≠ k) :
+    (t.replace k v).get k' = t.get k' := by
+  have hk : (k' == k) = false := by simp [h]
+  simp only [Table.get, Table.replace, List.lookup, hk]
+  rw [lookup_filter_ne _ _ _ h]
+
+/-- `apply_to_npdataclass("sequence")(f)`: the result's sequence column is `f` of the CURRENT sequence column of its
+argument; all other columns are the argument's -/
+theorem applySeq_def (f : List Bytes → Option (List Bytes)) (t t' : Table) (h : t.applySeq f = some t') :
+    ∃ s r, t.get "sequence" = some s ∧ f s = some r ∧ t'.get "sequence" = some r ∧
+      ∀ k, k ≠ "sequence" → t'.get k = t.get k := by
+  unfold Table.applySeq at h
+  cases hs : t.get "sequence" with
+  | none => simp [hs] at h
+  | some s =>
+    cases hr : f s with
+    | none => simp [hs, hr] at h
+    | some r =>
+      simp only [hs, hr, Option.some.injEq] at h
+      subst h
+      exact ⟨s, r, rfl, hr, table_get_replace _ _ _, fun k hk => table_get_replace_ne _ _ _ _ hk⟩
+
+/-- two decorated functions one after the other: the second sees the FIRST one's output, and the final table holds the
+second one's output (also when the argument is a lazy table whose `sequence` was already replaced) -/
+theorem applySeq_compose (f g : List Bytes → Option (List Bytes)) (t t1 t2 : Table)
+    (h1 : t.applySeq f = some t1) (h2 : t1.applySeq g = some t2) :
+    ∃ s r r2, t.get "sequence" = some s ∧ f s = some r ∧ g r = some r2 ∧ t2.get "sequence" = some r2 ∧
+      ∀ k, k ≠ "sequence" → t2.get k = t.get k := by
+  obtain ⟨s, r, hs, hr, h1s, h1o⟩ := applySeq_def f t t1 h1
+  obtain ⟨s', r2, hs', hr2, h2s, h2o⟩ := applySeq_def g t1 t2 h2
+  rw [h1s] at hs'; cases hs'
+  exact ⟨s, r, r2, hs, hr, hr2, h2s, fun k hk => (h2o k hk).trans (h1o k hk)⟩
+
+/-- C14 clause 3 on a TABLE: reverse complement applied twice to a table (whose sequence column decodes to DNA) succeeds
+and gives back the sequence column, every other column unchanged -/
+theorem table_rc_twice (T : Tab) (h : tableOK T = true) (tab : List Nat) (t : Table) (s : List Bytes) (texts : List Bytes)
+    (hs : t.get "sequence" = some s) (hd : omap (decode T) s = some texts) (hdna : ∀ x ∈ texts, ∀ b ∈ x, isDna b = true) :
+    ∃ t1 t2, pipeStep T tab t .rc = some t1 ∧ pipeStep T tab t1 .rc = some t2 ∧ t2.get "sequence" = some s ∧
+      (∃ out, t1.get "sequence" = some out ∧ omap (decode T) out = some (texts.map specRevComp)) ∧
+      ∀ k, k ≠ "sequence" → t2.get k = t.get k := by
+  obtain ⟨out, ho, hod⟩ := revcomp_def T h s texts hd hdna
+  have hback := revcomp_involutive T h s texts hd hdna out ho
+  have e1 : pipeStep T tab t .rc = some (t.replace "sequence" out) := by
+    simp [pipeStep, Table.applySeq, hs, ho]
+  have e2 : pipeStep T tab (t.replace "sequence" out) .rc = some ((t.replace "sequence" out).replace "sequence" s) := by
+    simp [pipeStep, Table.applySeq, table_get_replace, hback]
+  refine ⟨_, _, e1, e2, table_get_replace _ _ _, ⟨out, table_get_replace _ _ _, hod⟩, ?_⟩
+  intro k hk
+  rw [table_get_replace_ne _ _ _ _ hk, table_get_replace_ne _ _ _ _ hk]
+
+/-- row selection and split-and-concatenate act on every column alike (a replaced column included) -/
+theorem mapCols_get (f : List Bytes → List Bytes) (t : Table) (k : String) :
+    (t.mapCols f).get k = (t.get k).map f := by
+  have key : ∀ l : List (String × List Bytes), (l.map (fun p => (p.1, f p.2))).lookup k = (l.lookup k).map f := by
+    intro l
+    induction l with
+    | nil => rfl
+    | cons p ps ih =>
+      obtain ⟨a, b⟩ := p
+      simp only [List.map_cons, List.lookup]
+      split <;> simp_all
+  simp only [Table.get, Table.mapCols, key]
+  cases t.sets.lookup k <;> simp
+
+/-- every step of a pipeline changes the sequence column as the property reads that step
+(`specStepSeq` with the model functions in place of the spec functions) -/
+theorem concat_step_id (T : Tab) (tab : List Nat) (t t' : Table) (k : Nat) (h : pipeStep T tab t (.concat k) = some t')
+    (c : String) : t'.get c = t.get c := by
+  simp only [pipeStep, Option.some.injEq] at h
+  subst h
+  rw [mapCols_get]
+  cases t.get c <;> simp
+
+/-! ### derived interval objects keep their kind -/
+
+theorem gi_step_kind (g : GI) (s : GStep) : (g.step s).stranded = g.stranded := by
+  cases s <;> rfl
+
+/-- clipping, selecting, replacing a column by itself, split-and-concatenate: the result is stranded iff the
+object it was derived from is -/
+theorem derived_keeps_kind (steps : List GStep) (g : GI) : (steps.foldl GI.step g).stranded = g.stranded := by
+  induction steps generalizing g with
+  | nil => rfl
+  | cons s ss ih => simp only [List.foldl_cons]; rw [ih, gi_step_kind]
+
+theorem windows_kind (sizes : List Nat) (flank : Nat) (locs : List (Nat × Nat × Nat)) (st : Bool) :
+    (windows sizes flank locs st).stranded = st := rfl
+
+/-- a clipped interval ends inside its chromosome -/
+theorem clip_in_bounds (g : GI) (sizes : List Nat) :
+    ∀ iv ∈ (g.step (.clip sizes)).ivs, iv.stop ≤ sizes.getD iv.chrom 0 := by
+  intro iv hiv
+  simp only [GI.step, List.mem_map] at hiv
+  obtain ⟨iv0, _, rfl⟩ := hiv
+  simp only [clipIv]
+  exact Nat.min_le_left _ _
+
+/-- the windows around locations are `[p - flank, p + flank + 1) ∩ [0, size)` with the location's strand -/
+theorem windows_ivs (sizes : List Nat) (flank : Nat) (locs : List (Nat × Nat × Nat)) (st : Bool) :
+    (windows sizes flank locs st).ivs =
+      locs.map (fun l => ⟨l.1, l.2.1 - flank, min (sizes.getD l.1 0) (l.2.1 + flank + 1), l.2.2⟩) := by
+  simp [windows, GI.step, clipIv, Function.comp_def]
+
+/-- C14 clause 4 through the Genome API: `genomic_sequence[intervals]` for a stranded interval object that went through
+any derivation steps returns, for the intervals the derived object denotes, the forward slice for `+` and its reverse
+complement otherwise -/
+theorem getitem_derived (T : Tab) (h : tableOK T = true) (seqs : List (List Nat)) (texts : List Bytes)
+    (hd : omap (decode T) seqs = some texts) (hdna : ∀ t ∈ texts, ∀ b ∈ t, isDna b = true)
+    (g : GI) (hs : g.stranded = true) (steps : List GStep) :
+    ∃ out, getitem T seqs (steps.foldl GI.step g) = some out ∧
+      omap (decode T) out = some (specStrand texts (steps.foldl GI.step g).ivs) := by
+  obtain ⟨out, h1, h2⟩ := extract_stranded_def T h seqs texts hd hdna (steps.foldl GI.step g).ivs
+  refine ⟨out, ?_, h2⟩
+  simp [getitem, derived_keeps_kind, hs, h1]
+
+/-- … and for an object that is not stranded, the forward slices whatever the strand column says -/
+theorem getitem_unstranded (T : Tab) (seqs : List (List Nat)) (g : GI) (hs : g.stranded = false) (steps : List GStep) :
+    getitem T seqs (steps.foldl GI.step g) = some (relevant seqs (steps.foldl GI.step g).ivs) := by
+  simp [getitem, derived_keeps_kind, hs, extract_unstranded_def]
+
+example : (pipeStep Gen.C14.ASCII Gen.C14.codon ⟨[("name", [[0]]), ("sequence", [[97, 71]])], []⟩ .rc).bind
+    (fun t1 => (pipeStep Gen.C14.ASCII Gen.C14.codon t1 .rc).bind (fun t2 => t2.get "sequence")) = some [[97, 71]] := by
+  decide +kernel
+example : ((windows [4] 2 [(0, 2, 45), (0, 0, 45)] true).ivs.map (fun iv => (iv.start, iv.stop))) = [(0, 4), (0, 3)] := by decide
+
 end C14
